@@ -62,6 +62,14 @@ TWINS = [
      "src.a/3600,", "src.a / 3600.0,"),
     ("sigma precomputed", "AegeanTools/AeRes.py",
      "sx*FWHM2CC, sy*FWHM2CC, theta)", "FWHM2CC*sx, FWHM2CC*sy, theta)"),
+    ("clip arguments swapped alone (the NaN is still caught by the position "
+     "guard)", "AegeanTools/AeRes.py",
+     "        xmin = max(np.floor(xmin), 0)",
+     "        xmin = max(0, np.floor(xmin))"),
+    ("position guards merged alone (the NaN is still caught by the isfinite "
+     "guard)", "AegeanTools/AeRes.py",
+     "        if not 0 < xo < shape[0]:\n            logging.debug(\"source {0} is not within image\".format(src.island))\n            continue\n        if not 0 < yo < shape[1]:",
+     "        if xo <= 0 or xo >= shape[0] or yo <= 0 or yo >= shape[1]:"),
 ]
 
 
@@ -280,6 +288,112 @@ def run(ctx):
               "with shape=(10, 20) the guards %s for (xo, yo)=%s" %
               ("skip" if wrong and wrong[2] else "do not skip",
                wrong[:2] if wrong else None), node=loop[0])
+    # an unprojectable source (NaN pixel position: more than 90 deg from the
+    # reference point of a SIN / TAN image) is skipped by SOME guard before
+    # the accumulation -- the statements between are interpreted for
+    # xo = yo = NaN with python's own min / max semantics (max(nan, 0) is nan
+    # but max(0, nan) is 0)
+    import math
+
+    def cev(e, env):
+        if isinstance(e, ast.Constant):
+            return e.value
+        if isinstance(e, ast.Name):
+            if e.id in env:
+                return env[e.id]
+            raise _Unk(e.id)
+        if isinstance(e, ast.Subscript) and norm(e.value) == "shape" and \
+                isinstance(e.slice, ast.Constant):
+            return env["shape"][e.slice.value]
+        if isinstance(e, ast.UnaryOp):
+            v_ = cev(e.operand, env)
+            return (not v_) if isinstance(e.op, ast.Not) else (
+                -v_ if isinstance(e.op, ast.USub) else v_)
+        if isinstance(e, ast.BoolOp):
+            vs_ = [cev(v_, env) for v_ in e.values]
+            return all(vs_) if isinstance(e.op, ast.And) else any(vs_)
+        if isinstance(e, ast.BinOp):
+            a_, b_ = cev(e.left, env), cev(e.right, env)
+            ops = {ast.Add: lambda: a_ + b_, ast.Sub: lambda: a_ - b_,
+                   ast.Mult: lambda: a_ * b_, ast.Div: lambda: a_ / b_}
+            if type(e.op) not in ops:
+                raise _Unk(norm(e))
+            return ops[type(e.op)]()
+        if isinstance(e, ast.Compare):
+            left = cev(e.left, env)
+            for op, c_ in zip(e.ops, e.comparators):
+                right = cev(c_, env)
+                r_ = {ast.Lt: left < right, ast.LtE: left <= right,
+                      ast.Gt: left > right, ast.GtE: left >= right,
+                      ast.Eq: left == right,
+                      ast.NotEq: left != right}.get(type(op))
+                if r_ is None:
+                    raise _Unk(norm(e))
+                if not r_:
+                    return False
+                left = right
+            return True
+        if isinstance(e, (ast.List, ast.Tuple)):
+            return [cev(x_, env) for x_ in e.elts]
+        if isinstance(e, ast.Call):
+            fn = norm(e.func)
+            args = [cev(a_, env) for a_ in e.args]
+            table = {
+                "np.radians": math.radians, "math.radians": math.radians,
+                "np.cos": math.cos, "np.sin": math.sin, "abs": abs,
+                "np.abs": abs, "np.floor": lambda v_: v_ if v_ != v_
+                else math.floor(v_), "np.ceil": lambda v_: v_ if v_ != v_
+                else math.ceil(v_), "max": max, "min": min,
+                "np.isfinite": lambda v_: [math.isfinite(q_) for q_ in v_]
+                if isinstance(v_, list) else math.isfinite(v_),
+                "np.isnan": lambda v_: [q_ != q_ for q_ in v_]
+                if isinstance(v_, list) else v_ != v_,
+                "np.all": lambda v_: all(v_) if isinstance(v_, list)
+                else bool(v_),
+                "np.any": lambda v_: any(v_) if isinstance(v_, list)
+                else bool(v_),
+                "all": all, "any": any, "float": float,
+            }
+            if fn in table:
+                return table[fn](*args)
+            raise _Unk(fn)
+        raise _Unk(norm(e))
+
+    def reaches_accumulation(env):
+        for st in body:
+            if any(isinstance(x_, ast.Subscript) and
+                   norm(x_.value) in (MARR, "np.mgrid")
+                   for x_ in ast.walk(st)):
+                return True
+            if isinstance(st, ast.Assign) and len(st.targets) == 1 and \
+                    isinstance(st.targets[0], ast.Name):
+                try:
+                    env[st.targets[0].id] = cev(st.value, env)
+                except _Unk:
+                    env.pop(st.targets[0].id, None)
+            elif isinstance(st, ast.If):
+                try:
+                    c_ = cev(st.test, env)
+                except _Unk:
+                    continue
+                if c_ and any(isinstance(b_, ast.Continue)
+                              for b_ in st.body):
+                    return False
+        return True
+    nan = float("nan")
+    fdef = [s_ for s_ in walk_no_nested(mm.node) if isinstance(s_, ast.Assign)
+            and norm(s_.targets[0]) == "factor"]
+    base = {"shape": (10, 20), "sx": 2.0, "sy": 1.0, "theta": 30.0,
+            "factor": prog.const_value(mod, fdef[0].value) if fdef else 5}
+    for label, xv, yv in (("xo", nan, 5.0), ("yo", 5.0, nan),
+                          ("xo and yo", nan, nan)):
+        env = dict(base, xo=xv, yo=yv)
+        ctx.check("C14-R4", mm, "a source with undefined %s is skipped" %
+                  label, not reaches_accumulation(env),
+                  "with %s = NaN (a position that cannot be projected onto "
+                  "the image) no guard skips the source: the window clips "
+                  "evaluate to the whole image and `model` (all NaN) is "
+                  "added to every pixel" % label, node=loop[0])
     # ---------------------------------------------------------------- R5
     ctx.rule("C14-R5", "mask mode: NaN exactly where model >= threshold")
     wh = [s for s in walk_no_nested(mm.node) if isinstance(s, ast.Assign)
